@@ -35,6 +35,10 @@ def gen_cases(ctx, forest, ntrees, per_tree):
     for k in range(ntrees):
         nm = b"t%d" % k
         spec = fstree.gen_tree(rng, max_nodes=34, p_dir=0.5)
+        other = forest.other_device()
+        if other is not None and rng.random() < 0.4:
+            dirs = [sp for pth, sp in fstree.all_paths(spec) if sp[0] == "d"]
+            rng.choice(dirs)[1][b"xd"] = ("l", other)
         forest.add(nm, spec)
         dnames = sorted({p[-1] for p, s in fstree.all_paths(spec) if p and s[0] == "d"})
         anynames = sorted({p[-1] for p, s in fstree.all_paths(spec) if p})
@@ -46,7 +50,8 @@ def gen_cases(ctx, forest, ntrees, per_tree):
                 prune.append(nm)          # the starting point itself
             mind, maxd = (None, None) if rng.random() < 0.6 else (rng.choice([None, 1, 2]), rng.choice([None, 1, 2, 3]))
             cases.append(dict(treekey=(ctx.seed, k), roots=[nm], mode=mode, mind=mind, maxd=maxd,
-                              post=rng.random() < 0.45, post_late=rng.choice([None, None, "-depth", "-d"]), prune=prune))
+                              post=rng.random() < 0.45, post_late=rng.choice([None, None, "-depth", "-d"]), prune=prune,
+                              xdev=rng.choice([None, None, None, "-xdev"])))
     return cases
 
 
